@@ -137,6 +137,9 @@ def run(ctx):
     by_id = {e["id"]: e for e in events}
     for f in fails:
         classify(ctx, by_id[f["id"]], f)
+    if True:
+        from . import hooktrace as _ht
+        _ht.apply(ctx, ("text",), ("incr:",))      # the repository's own tests, recorded through the hooks
     ctx.evaluations = len(events)
     for e in events:
         if e["out"][0] != 0:
